@@ -856,7 +856,10 @@ class NinjaBackend(backends.Backend):
             if isinstance(dep, (build.StaticLibrary, build.SharedLibrary)):
                 header_deps += self.get_generated_headers(dep)
         if isinstance(target, build.CompileTarget):
-            header_deps.extend(target.get_generated_headers())
+            # The outputs of the targets in depends: live in their output
+            # directory, which is not their subdir with --layout=flat.
+            for dep in target.depends:
+                header_deps += [File.from_built_file(self.get_target_dir(dep), o) for o in dep.get_outputs()]
         self._generated_header_cache[tid] = header_deps
         return header_deps
 
